@@ -187,7 +187,7 @@ func (_this *EdgeSourceRule) OnMarker(ctx *Context, identifier []byte) {
 	ctx.BeginMarkerAnyType(identifier, AllowNonNull)
 }
 func (_this *EdgeSourceRule) OnReferenceLocal(ctx *Context, identifier []byte) {
-	ctx.LocalReferenceAnyType(identifier)
+	ctx.LocalReferenceNonNull(identifier)
 	_this.moveToNextRule(ctx)
 }
 func (_this *EdgeSourceRule) OnArray(ctx *Context, arrayType events.ArrayType, elementCount uint64, data []uint8) {
@@ -265,6 +265,9 @@ func (_this *EdgeDescriptionRule) OnArrayBegin(ctx *Context, arrayType events.Ar
 type EdgeDestinationRule struct{}
 
 func (_this *EdgeDestinationRule) String() string { return "Edge Destination Rule" }
+func (_this *EdgeDestinationRule) OnReferenceLocal(ctx *Context, identifier []byte) {
+	ctx.LocalReferenceNonNull(identifier)
+}
 
 // =============================================================================
 
